@@ -4,6 +4,7 @@ import CookModel.Lemmas.FractionMore
 import CookModel.Lemmas.FractionDisplay
 import CookModel.Lemmas.DisplayText
 import CookModel.Lemmas.FractionNearest
+import CookModel.Lemmas.DisplayGroup
 /-
   C12  Fraction approximation never misstates a value.
 
@@ -516,5 +517,42 @@ example : newApprox ratTable (9/10 : Rat) (1/5) 10 1 = some (.fraction 1 0 1 (-1
     the larger denominator, so the upper one is taken -/
 example : lookupKey ratTable 4375 8 = some ⟨5000, 1, 2⟩ := by decide +kernel
 -- ===== end w4c09best =====
+
+-- ===== w6numeric =====
+/-! ## `Display for GroupedQuantity` / `GroupedValue` (wave `w6numeric`, Lemmas/DisplayGroup.lean) -/
+
+/-- **The grouped-quantity `Display`** (every arithmetic instance): the text is the quantities of `iter()` — the known
+    physical quantities in enum order, the unknown-unit entries in the hash map's order `ord`, the others, the unit-less
+    total — each printed by the PLAIN quantity rule (`C12_display_quantity` with `alt = false`: the alternate flag is
+    not passed on, so no error suffix ever appears in a group), joined by `", "`; an empty group prints nothing; the
+    text has the items' lengths plus two characters per separator; and every item stands in the text as a contiguous
+    piece right after the comma-separated earlier items.  `GroupedValue` likewise over its values. -/
+theorem C12_display_grouped {α : Type} [Arith α] [FloatText α] (ord : MapOrder α) (g : GroupedQuantity α) :
+    g.display ord = ([',', ' '] : List Char).intercalate
+      ((g.knownList ++ (ord g.unknown).map (·.2) ++ g.other ++ g.noUnit.toList).map (SQuantity.display false)) ∧
+    (g.iter ord = [] → g.display ord = []) ∧
+    (g.display ord).length =
+      (((g.iter ord).map (SQuantity.display false)).map List.length).sum + 2 * ((g.iter ord).length - 1) ∧
+    (∀ pre q post, g.iter ord = pre ++ q :: post →
+      g.display ord =
+        (if pre = [] then [] else commaSeparated (pre.map (SQuantity.display false)) ++ [',', ' ']) ++
+        SQuantity.display false q ++
+        (if post = [] then [] else ',' :: ' ' :: commaSeparated (post.map (SQuantity.display false)))) ∧
+    (∀ vs : List (Value α), groupedValueDisplay vs =
+      ([',', ' '] : List Char).intercalate (vs.map (Value.display false))) := by
+  refine ⟨dgr_commaSeparated_eq _, ?_, ?_, ?_, fun vs => dgr_commaSeparated_eq _⟩
+  · intro h; simp [GroupedQuantity.display, h, commaSeparated]
+  · have := dgr_commaSeparated_length ((g.iter ord).map (SQuantity.display false))
+    simpa [GroupedQuantity.display] using this
+  · intro pre q post h
+    have := dgr_commaSeparated_split (pre.map (SQuantity.display false)) (SQuantity.display false q)
+      (post.map (SQuantity.display false))
+    simp only [GroupedQuantity.display, h, List.map_append, List.map_cons]
+    simpa using this
+
+/-- a group of `1/2` (a fraction with a recorded error that the alternate form would show) and `3` prints `1/2, 3` -/
+example : groupedValueDisplay [Value.number (.fraction 0 1 2 (1/100 : Rat)), .number (.regular 3)] =
+    ['1', '/', '2', ',', ' ', '3'] := by decide +kernel
+-- ===== end w6numeric =====
 
 end Cook
